@@ -34,6 +34,8 @@ pub struct Monitors {
     /// workers on which a prefilled task started although the server had already given the resources of
     /// the finished/cancelled task to another assigned task (the books saturate there): finding F29
     pub prefill_saturated: BTreeSet<u32>,
+    /// number of failure losses (connection / heartbeat lost) of a worker that was reported running the task
+    expected_crashes: BTreeMap<TaskId, u32>,
 }
 
 impl Monitors {
@@ -58,6 +60,43 @@ impl Monitors {
 
     pub fn cancel_answered(&mut self, ids: impl Iterator<Item = TaskId>) {
         self.cancelled.extend(ids);
+    }
+
+    /// C08 "any execution still in progress is stopped": after a cancel was answered, every worker that is
+    /// executing a cancelled task must have been sent CancelTasks naming it (`told` = messages sent in this action)
+    pub fn cancel_stops(&mut self, cancelled_now: &[TaskId], executing: &[(u32, TaskId)], told: &[(u32, ToWorkerMessage)]) {
+        for (w, t) in executing {
+            if cancelled_now.contains(t) {
+                let ok = told.iter().any(|(ww, m)| ww == w && matches!(m, ToWorkerMessage::CancelTasks(c) if c.ids.contains(t)));
+                if !ok {
+                    self.fail("c08.stop", "cancelled-execution-not-told-to-stop", format!("task {} was cancelled while executing on worker {} but no CancelTasks naming it was sent there", tid(*t), w));
+                }
+            }
+        }
+    }
+
+    /// C13: auto-assigned ids continue directly after the largest existing id
+    pub fn auto_ids(&mut self, job: u32, max_before: Option<u32>, count: u32, new_ids: &[u32]) {
+        let start = max_before.map(|m| m + 1).unwrap_or(0);
+        let expect: Vec<u32> = (start..start + count).collect();
+        let mut got = new_ids.to_vec();
+        got.sort();
+        if got != expect {
+            self.fail("c13.auto_ids", "not-after-largest-id", format!("job {job}: auto-assigned ids {:?}, expected {:?} (largest existing id {:?})", got, expect, max_before));
+        }
+    }
+
+    /// a panic inside the job layer is how the implementation refuses an out-of-order report
+    pub fn job_layer_panic(&mut self, site: &str, msg: &str) {
+        let m = msg.replace('\n', " ");
+        match site {
+            "job.set_finished_state" => self.fail("c01.outcome_once", "finish-without-start-refused", format!("the job layer refused a finish report of a task that is not running: {m}")),
+            "job.set_failed_state" | "job.set_cancel_state" | "job.abort_tasks" => {
+                self.fail("c01.outcome_once", "second-outcome-refused", format!("the job layer refused a second terminal transition: {m}"))
+            }
+            "job.set_waiting_state" => self.fail("c07.loss", "running-list-mismatch", format!("a task reported running at a worker loss is not running in the job layer: {m}")),
+            _ => {}
+        }
     }
 
     pub fn events(&mut self, evs: &[EventPayload]) {
@@ -115,7 +154,12 @@ impl Monitors {
     }
 
     /// the `running` list of an `on_worker_lost` callback
-    pub fn worker_lost(&mut self, worker: u32, running: &[TaskId]) {
+    pub fn worker_lost(&mut self, worker: u32, running: &[TaskId], is_failure: bool) {
+        if is_failure {
+            for t in running {
+                *self.expected_crashes.entry(*t).or_insert(0) += 1;
+            }
+        }
         let mut expect: Vec<TaskId> = self.running_on.iter().filter(|(_, w)| **w == worker).map(|(t, _)| *t).collect();
         expect.sort();
         let mut got = running.to_vec();
@@ -255,6 +299,13 @@ impl Monitors {
     /// C05: reservations of every worker add up to its total; multi-node workers hold exactly one task
     pub fn resinv(&mut self, snap: &CoreSnapshot) {
         let mut fails = Vec::new();
+        // C07: the crash counter of every task the core knows = failure losses of workers that ran it
+        for t in &snap.tasks {
+            let expect = self.expected_crashes.get(&t.id).copied().unwrap_or(0);
+            if t.crashes != expect {
+                fails.push(("c07.counter", "crash-count-mismatch", format!("task {} has crash counter {} but {} failure losses hit a worker that was running it", tid(t.id), t.crashes, expect)));
+            }
+        }
         for w in &snap.workers {
             if let Some((assigned, free, _)) = &w.sn {
                 let mut sum = free.clone();
